@@ -5,6 +5,18 @@ import json, pathlib
 ALL = [f'C{i:02d}' for i in range(1, 20)]
 
 CHECKS = {
+ 'C18': dict(
+   technique='Coq proof (stable sort is a sorted permutation; table shape; cell = attribute; column-omission iff; preamble rule) + cell-level differential reading the .xlsx back',
+   text='Props/C18.v: the modelled table has one row per structure - the waveguides as a sorted permutation first, then the markers '
+        'in order - one cell per kept column, each cell showing the attribute (blank when absent); a column is omitted iff it is '
+        'not the name and is undefined for all rows or constant with suppression on; omitted constants go to the preamble, kept '
+        'preamble fields become "variable" (static) or are removed; the sentinel collision for values >= 1e5 is machine-refuted '
+        '(known finding). Tie to /repo: random devices (0-12 waveguides with equal/differing parameters and ad-hoc attributes, '
+        '0-4 markers, groups), random column selections, both flags; the .xlsx is read back with openpyxl and column titles, '
+        'every cell and the preamble are compared with the model.',
+   note='Trusted: Coq kernel; xlsxwriter/openpyxl as oracles; numbers compared to 1e-6 relative (16-digit storage, float32 marker '
+        'centres); marker rows carry centre x / centre y under Yin / Yout as coded.',
+   design='5/C18'),
  'C19': dict(
    technique='Coq proof over strings (pure-path split/suffix/with_suffix, association-list merge and key filtering) + path/dict-level differential on a temporary tree with decoy files and dill round trips',
    text='Props/C19.v: for every path string the export and parameter-file targets keep the directory the caller named, \'.pkl\' / '
